@@ -18,7 +18,9 @@ def load_claims():
         if "MANIFEST" in info and "PROP" in info:
             out[info["PROP"]] = info["MANIFEST"]
     return out
-CLAIMED = load_claims()
+# properties whose check has been integrated and verified by the coordinator (exit 0 on the unchanged tree, several seeds)
+ENABLED = ["C17", "C19"]
+CLAIMED = {k: v for k, v in load_claims().items() if k in ENABLED}
 NOT_APPLICABLE = {}
 def main():
     props = [json.loads(l)["id"] for l in open(os.path.join(ROOT, "properties.jsonl"))]
